@@ -188,13 +188,20 @@ def gen_tails_exits(g: Gen, c: Contract):
     return {'self': scfg, 'tails': T, 'exits': E}
 
 
+def gen_namegen(g: Gen, c: Contract):
+    r = g.rng
+    kinds = ['a', 'synth_asign', 'control', 'a_block_1', 'x_region_', '__scfg_', '1', '']
+    ng = g.NameGenerator(kinds={r.choice(kinds): r.randint(0, 12) for _ in range(r.randint(0, 3))})
+    return {'self': ng, 'kind': r.choice(kinds)}
+
+
 def gen_graph_and_pair(g: Gen, c: Contract):
     scfg = g.scfg()
     keys = list(scfg.graph)
     return {'self': scfg, 'begin': g.rng.choice(keys) if g.rng.random() < 0.9 else 'zz', 'end': g.rng.choice(keys + UNIVERSE)}
 
 
-GENERATORS = {'insert_ctrl': gen_insert_ctrl, 'tails_exits': gen_tails_exits, 'graph_and_pair': gen_graph_and_pair, 'graph_and_subset': gen_graph_and_subset, 'insert': gen_insert, 'branch_replace': gen_branch_replace}
+GENERATORS = {'namegen': gen_namegen, 'insert_ctrl': gen_insert_ctrl, 'tails_exits': gen_tails_exits, 'graph_and_pair': gen_graph_and_pair, 'graph_and_subset': gen_graph_and_subset, 'insert': gen_insert, 'branch_replace': gen_branch_replace}
 
 
 def gen_args(g: Gen, c: Contract):
@@ -210,6 +217,8 @@ def snapshot(v):
 def describe(v):
     import dataclasses
     if dataclasses.is_dataclass(v) and not isinstance(v, type):
+        if type(v).__name__ == 'NameGenerator':
+            return {'NameGenerator': dict(v.kinds)}
         if type(v).__name__ == 'SCFG':
             return {'SCFG': {k: describe(b) for k, b in v.graph.items()}, 'kinds': dict(v.name_gen.kinds)}
         d = {'class': type(v).__name__}
@@ -234,6 +243,8 @@ def rebuild(d, g: Gen = None):
     """Inverse of describe (for replay files)."""
     from numba_scfg.core.datastructures import basic_block as bb
     from numba_scfg.core.datastructures.scfg import SCFG, NameGenerator
+    if isinstance(d, dict) and 'NameGenerator' in d:
+        return NameGenerator(kinds=dict(d['NameGenerator']))
     if isinstance(d, dict) and 'SCFG' in d:
         return SCFG({k: rebuild(b) for k, b in d['SCFG'].items()}, name_gen=NameGenerator(kinds=dict(d.get('kinds', {}))))
     if isinstance(d, dict) and 'class' in d:
